@@ -2,8 +2,8 @@
    unmarshalling (length must be 32), the peer id of a secp256k1 public key (identity multihash
    of the protobuf PublicKey{Type=Secp256k1, Data=33 bytes}), its extraction, and the Ethereum
    address keccak(X||Y)[12:].  Curve operations and keccak are arguments.  Definitions only. *)
-From Coq Require Import List NArith Bool.
-From MevVerif Require Import lib.Bytes.
+From Coq Require Import String List NArith Bool.
+From MevVerif Require Import lib.Bytes gen.Generated.
 Import ListNotations.
 Open Scope N_scope.
 
@@ -23,7 +23,13 @@ Definition unmarshal_priv (l : bytes) : option N :=
 Definition pubkey_proto (c : bytes) : bytes := 8 :: 2 :: 18 :: N.of_nat (length c) :: c.
 Definition peerid (c : bytes) : bytes := 0 :: N.of_nat (length (pubkey_proto c)) :: pubkey_proto c.
 
-(* peer.ID.ExtractPublicKey + Raw(), on ids of the shape the node itself produces *)
+(* peer.ID.ExtractPublicKey + Raw(), on ids of the shape the node itself produces, the CANONICAL peer ids of
+   secp256k1 keys (what peer.IDFromPublicKey answers, hence what the security transport authenticates).
+   The Go function accepts more: any identity multihash of a PublicKey protobuf (65-byte uncompressed or hybrid
+   SEC1 data, other field order, unknown fields) and it validates the point.  Those ids are outside this model:
+   a statement about [addr_of_peerid] on ids that are not [canonical] is a statement about the model only. *)
+Definition canonical (pid : bytes) : Prop := exists c, length c = 33%nat /\ pid = peerid c.
+
 Definition extract_pub (pid : bytes) : option bytes :=
   match pid with
   | 0 :: 37 :: 8 :: 2 :: 18 :: 33 :: c => if Nat.eqb (length c) 33 then Some c else None
@@ -42,8 +48,8 @@ Section Node.
   Variable compress : point -> bytes.          (* 33-byte SEC1 compressed form *)
   Variable decompress : bytes -> option point. (* crypto.DecompressPubkey *)
 
-  (* the address the node signs bids, commitments and handshakes with *)
-  Definition signing_addr (d : N) : bytes := eth_addr keccak (pub d).
+  (* the Ethereum address of the public key of scalar d: crypto.PubkeyToAddress(d.G) *)
+  Definition pubkey_addr (d : N) : bytes := eth_addr keccak (pub d).
 
   (* libp2p.New: key bytes -> host id;  GetEthAddressFromPeerID(host id) *)
   Definition host_id (key_bytes : bytes) : option bytes :=
@@ -63,3 +69,44 @@ Section Node.
   Definition node_peer_addr_nopad (d : N) : option bytes :=
     match host_id (min_be d) with Some pid => addr_of_peerid pid | None => None end.
 End Node.
+
+(* --- the three places an address of the node comes from, and the wiring of libp2p.New ---------------
+   A key signer (mock, private-key file, keystore) that was given the scalar d answers three questions, by
+   three different pieces of code:
+     ks_priv d       GetPrivateKey().D, the scalar libp2p.New builds the transport identity from
+                     (private-key file: the loaded key; keystore: keystore.DecryptKey of the account file)
+     ks_addr d       GetAddress(), what the node says its address is (private-key file:
+                     crypto.PubkeyToAddress; keystore: account.Address as stored in the key file)
+     recover_addr d  the address a verifier recovers (SigToPub + PubkeyToAddress) from the signatures
+                     SignHash makes - handshake requests, bids, commitments
+   The third source is the peer-id-derived address [node_peer_addr] above.  Nothing in this file makes them
+   equal; the theorems name the equalities they need. *)
+Definition wiring_ok : bool :=
+  (* privKey is the KeySigner's key (and is the variable wiped by the deferred ZeroPrivateKey) *)
+  c18_new_gets_key &&
+  match c18_new_zero_args with [[a]] => bytes_eqb a (bos "privKey") | _ => false end &&
+  (* padded32BytePrivKey := util.PadKeyTo32Bytes(privKey.D), the only assignment *)
+  c18_new_pads_key &&
+  match c18_new_padded_src with [a] => bytes_eqb a (bos "util.PadKeyTo32Bytes(privKey.D)") | _ => false end &&
+  match c18_new_unmarshal_args with [[a]] => bytes_eqb a (bos "padded32BytePrivKey") | _ => false end &&
+  match c18_new_identity_args with [[a]] => bytes_eqb a (bos "libp2pKey") | _ => false end &&
+  (* the same KeySigner signs the handshake; peers' binding check uses GetEthAddressFromPeerID *)
+  match c18_new_handshake_args with
+  | [a :: rest] => bytes_eqb a (bos "opts.KeySigner") && bytes_eqb (last rest []) (bos "GetEthAddressFromPeerID")
+  | _ => false
+  end.
+
+Section Sources.
+  Variable keccak : bytes -> bytes.
+  Variable pub : N -> point.
+  Variable compress : point -> bytes.
+  Variable decompress : bytes -> option point.
+  Variable ks_priv : N -> N.
+  Variable ks_addr : N -> bytes.
+  Variable recover_addr : N -> bytes.
+
+  (* what peers compute for a node started (libp2p.New as it is written now) with a key signer holding d *)
+  Definition node_peer_addr_now (d : N) : option bytes :=
+    if wiring_ok then node_peer_addr keccak pub compress decompress (ks_priv d)
+    else node_peer_addr_nopad keccak pub compress decompress (ks_priv d).
+End Sources.
